@@ -16,14 +16,14 @@ LEVEL = "exploration"
 RULE = (
     "shapes: all lattice triangles in {0..3}^2 and lattice quadrilaterals in {0,1,2}^2 (sliced in the quick tier), "
     "the P and PC alphabets (int/Fraction/float, both orientations, with holes, several components, unbounded), "
-    "the curved Q alphabet and curved composites, Empty, Whole. points per shape: one witness per face of the "
+    "the curved Q alphabet, curved composites, curved shapes scaled by 1/1024 and 1024, Empty, Whole. points per shape: one witness per face of the "
     "arrangement of its supporting lines, all lattice points of its box +-2, every vertex, edge points at "
     "t=1/4,1/2,3/4, points at normal offsets +-{1e-4,1e-3,1e-2}*size from every edge/arc at t=1/8..7/8 (the sagitta band "
     "of curved segments), far points. queries: `p in S`, contains_point(p, True/False), `p in curve`. "
     "IN => True, OUT => False, ON => the flag (ON is judged for exact polygon boundary points and for constructed boundary points segment(t) of curved/float shapes). non-trivial = point within the shape's box; distinct = (shape, point)."
 )
 ASSUMPTIONS = [
-    "points closer than 1e-4*size to a boundary (other than exact boundary points of polygons) are not judged: the library's own on-curve tolerance is 1e-6 absolute",
+    "points closer than max(1e-4*size, 2e-6) to a boundary (other than exact boundary points of polygons) are not judged: the library's own on-curve tolerance is 1e-6 absolute",
     "curved reference winding number by subdivision; ON when within 1e-9*size",
 ]
 CASE_TIMEOUT = 900
@@ -51,6 +51,10 @@ def cases(tier, seed):
     for q in (al.Q_ORDER if tier == "thorough" else ["c8", "blob", "scub", "rsq"]):
         fam.append(["G", "Q." + q])
     fam += [["SP", ["L", "P.L#int"]], ["SP", ["L", "Q.c8@cw"]], ["SP", ["PC", "hollow", "float"]]]
+    # other units of length: the same drawings 1024 times smaller / larger (powers of two: exact)
+    fam += [["SCL", "Q.c8", "1/1024"], ["SCL", "Q.blob", "1/1024"], ["SCL", "Q.rsq", "1/1024"], ["SCL", "Q.c16", "1024"], ["SCL", "Q.mixg", "1024"]]
+    if tier == "thorough":
+        fam += [["SCL", "Q." + q, f] for q in ("lens", "scub", "c5", "ftri") for f in ("1/1024", "1024")]
     fam += [["CQ", "ringc"], ["CQ", "twoc"], ["CQ", "xringc"], ["E"], ["W"]]
     specs = []
     for n in range(0, len(fam), 6):
@@ -135,7 +139,7 @@ def run_case(spec):
             truth = reg.contains(p)
             if truth != rg.ON:
                 # clearance: unjudged when closer than 1e-4*size (x0.5 safety) unless exact polygon
-                if reg.near_boundary(p, size * F(1, 20000)):
+                if reg.near_boundary(p, max(size * F(1, 20000), F(2, 10**6))):
                     hist["skipped-too-close"] = hist.get("skipped-too-close", 0) + 1
                     continue
             elif (not polygonal or is_float) and tag not in ("vertex", "edge"):
@@ -173,7 +177,7 @@ def run_case(spec):
             for k, j in enumerate(rg.all_jordans(S)):
                 c = curves[k] if k < len(curves) else rg.jordan_curve(j)
                 onc = c.winding(p) is rg.ON
-                if not onc and c.near(p, size * F(1, 20000)):
+                if not onc and c.near(p, max(size * F(1, 20000), F(2, 10**6))):
                     continue
                 st, got = call_limited(lambda: q in j, 30)
                 evals += 1
